@@ -11,6 +11,7 @@
 
 extern crate rustc_abi;
 extern crate rustc_ast;
+extern crate rustc_ast_pretty;
 extern crate rustc_data_structures;
 extern crate rustc_driver;
 extern crate rustc_hir;
@@ -19,6 +20,7 @@ extern crate rustc_middle;
 extern crate rustc_session;
 extern crate rustc_span;
 
+mod ast_attrs;
 mod hir_dump;
 mod items;
 mod json;
@@ -32,14 +34,25 @@ use rustc_middle::ty::TyCtxt;
 struct Cb {
     out: Option<String>,
     krate: String,
+    ast: Vec<json::J>,
 }
 
 impl rustc_driver::Callbacks for Cb {
+    fn after_expansion<'tcx>(&mut self, _c: &Compiler, tcx: TyCtxt<'tcx>) -> Compilation {
+        let name = tcx.crate_name(LOCAL_CRATE).to_string();
+        if self.out.is_some() && name == self.krate {
+            ast_attrs::collect(tcx, &mut self.ast);
+        }
+        Compilation::Continue
+    }
     fn after_analysis<'tcx>(&mut self, _c: &Compiler, tcx: TyCtxt<'tcx>) -> Compilation {
         let name = tcx.crate_name(LOCAL_CRATE).to_string();
         if let Some(out) = &self.out {
             if name == self.krate {
                 let mut buf = String::with_capacity(64 << 20);
+                for a in &self.ast {
+                    a.line(&mut buf);
+                }
                 rustc_middle::ty::print::with_no_trimmed_paths!({
                     items::dump(tcx, &mut buf);
                     hir_dump::dump(tcx, &mut buf);
@@ -62,6 +75,7 @@ fn main() {
     let mut cb = Cb {
         out: std::env::var("YATA_FACTS_OUT").ok(),
         krate: std::env::var("YATA_FACTS_CRATE").unwrap_or_else(|_| "yata".to_string()),
+        ast: Vec::new(),
     };
     rustc_driver::run_compiler(&args, &mut cb);
 }
